@@ -1544,16 +1544,16 @@ struct TransitionT final
 	bool
 	operator == (const TransitionT& other)						  const noexcept	{
 		return TransitionBase::operator == (other) &&
-			   (payloadSet ==  other.payloadSet);
-		//	  (!payloadSet && !other.payloadSet || payload == other.payload);
+			   (payloadSet ==  other.payloadSet) &&
+			   (!payloadSet || memcmp(storage, other.storage, sizeof(Storage)) == 0);
 	}
 
 	FFSM2_CONSTEXPR(11)
 	bool
 	operator != (const TransitionT& other)						  const noexcept	{
 		return TransitionBase::operator != (other) ||
-			   (payloadSet != other.payloadSet);
-		//	   (payloadSet |= other.payloadSet || payload != other.payload);
+			   (payloadSet != other.payloadSet) ||
+			   (payloadSet && memcmp(storage, other.storage, sizeof(Storage)) != 0);
 	}
 
 	FFSM2_CONSTEXPR(11)
@@ -6854,6 +6854,9 @@ protected:
 	FFSM2_CONSTEXPR(14)	bool applyRequest(const Transition& currentTransition,
 										  const StateID destination)							noexcept;
 
+	FFSM2_CONSTEXPR(14)	bool applyRequest(const Transition& currentTransition,
+										  const Transition& request)							noexcept;
+
 	FFSM2_CONSTEXPR(14)	bool cancelledByEntryGuards(const Transition& currentTransition,
 													const Transition& pendingTransition)		noexcept;
 
@@ -7052,7 +7055,7 @@ R_<TG_, TA_>::initialEnter() noexcept {
 		//backup();
 
 		if (applyRequest(currentTransition,
-						 _core.request.destination))
+						 _core.request))
 		{
 			pendingTransition = _core.request;
 			_core.request.clear();
@@ -7139,7 +7142,7 @@ R_<TG_, TA_>::processTransitions(Transition& currentTransition) noexcept {
 		//backup();
 
 		if (applyRequest(currentTransition,
-						 _core.request.destination))
+						 _core.request))
 		{
 			pendingTransition = _core.request;
 			_core.request.clear();
@@ -7171,6 +7174,21 @@ R_<TG_, TA_>::applyRequest(const Transition& currentTransition,
 {
 	if (currentTransition != Transition{destination}) {
 		_core.registry.requested = destination;
+
+		return true;
+	} else
+		return false;
+}
+
+template <typename TG_, typename TA_>
+FFSM2_CONSTEXPR(14)
+bool
+R_<TG_, TA_>::applyRequest(const Transition& currentTransition,
+						   const Transition& request) noexcept
+{
+	// only a request identical to the already accepted transition may be skipped without consulting guards
+	if (currentTransition != request) {
+		_core.registry.requested = request.destination;
 
 		return true;
 	} else
